@@ -10,12 +10,14 @@ ENV = dict(os.environ, GOFLAGS="-mod=mod", GOPROXY="off", GOSUMDB="off", GOTOOLC
 def sh(cmd, cwd=None, env=None, timeout=3600):
     p = subprocess.run(cmd, cwd=cwd, env=env or ENV, shell=isinstance(cmd, str), stdout=subprocess.PIPE, stderr=subprocess.STDOUT, text=True, errors="replace", timeout=timeout)
     return p.returncode, p.stdout
-ap = argparse.ArgumentParser(); ap.add_argument("seed"); ap.add_argument("--checks", default=""); ap.add_argument("--tier", default="quick"); ap.add_argument("--suite", action="store_true")
+ap = argparse.ArgumentParser(); ap.add_argument("seed"); ap.add_argument("--checks", default=""); ap.add_argument("--tier", default="quick"); ap.add_argument("--suite", action="store_true"); ap.add_argument("--keep", default="")
 a = ap.parse_args()
 seed = os.path.abspath(a.seed)
 meta = json.load(open(os.path.join(seed, "meta.json")))
 pid = meta.get("property", "C00")
 name = os.path.basename(seed.rstrip("/")) if os.path.basename(seed.rstrip("/")).startswith("harmless-") else "harmless-%s-%s" % (pid, os.path.basename(seed.rstrip("/")))
+if a.keep:
+    name = a.keep
 checks = [c for c in a.checks.split(",") if c] or [pid]
 wt = "/tmp/hw-%s-%d" % (name, os.getpid())
 rep = {"ran": [], "silent": [], "alarm_by": []}
